@@ -160,6 +160,8 @@ package cache
 //@   callsite io.Copy trackresult stepfailed bool: stepfailed || result1 != nil
 //@   callsite (File).Close trackresult stepfailed bool: stepfailed || result != nil
 //@   callsite os.Symlink trackresult stepfailed bool: stepfailed || result != nil
+//@   callsite (Reader).Next trackresult nexterr error: result1
+//@   returnsite a_hit_only_at_the_end_of_archive_marker [C13]: result0 ==> nexterr == io.EOF && called("(Reader).Next")
 //@   invariant "loop#1" no_step_failed_so_far: !stepfailed
 //@   ensures error_is_a_miss [C13]: result1 != nil ==> !result0
 //@   ensures hit_is_complete [C13]: result0 ==> result1 == nil
